@@ -135,6 +135,19 @@ def rand_config(rng, maxcache=None, idbase=1000, maxblocks=6):
     return dict(phen=phen, maxcache=maxcache, idbase=idbase)
 
 
+def add_raises(rng, cfg, n=None, span=12):
+    """wrap n randomly chosen predicates / preconditions / haltconditions of the configuration so that they raise on
+    the events with some timestamps (a predicate that fails on malformed input)"""
+    slots = []
+    for _ph, ps in cfg["phen"]:
+        for p in ps:
+            slots += [(b["preds"], i) for b in p["blocks"] for i in range(len(b["preds"]))]
+            slots += [(p[k], i) for k in ("pre", "halt") for i in range(len(p[k]))]
+    for lst, i in rng.sample(slots, min(len(slots), n or rng.choice([1, 1, 2, 3]))):
+        lst[i] = ("raiseon", sorted(rng.sample(range(span), rng.randint(1, 4))), lst[i])
+    return cfg
+
+
 def rand_stream(rng, n):
     return [rng.randint(1, 5) for _ in range(n)]
 
